@@ -437,7 +437,12 @@ public:
       bool expl = isa<ExplicitCastExpr>(C);
       if (K == CK_NoOp || K == CK_LValueToRValue || K == CK_ConstructorConversion ||
           K == CK_FunctionToPointerDecay || K == CK_UserDefinedConversion) {
-        return expr(C->getSubExpr());
+        json::Value sub = expr(C->getSubExpr());
+        // an lvalue-to-rvalue read of a constant (e.g. numeric_limits<T>::max_digits10): keep its value
+        if (K == CK_LValueToRValue && o.get("cv"))
+          if (json::Object* so = sub.getAsObject())
+            if (!so->get("cv")) (*so)["cv"] = *o.get("cv");
+        return sub;
       }
       o["k"] = "cast";
       o["ck"] = C->getCastKindName();
